@@ -2,7 +2,7 @@
    frame lemmas, store invariants, role links mirror the listed grouping rules (C05). *)
 From Coq Require Import List String Bool Arith ZArith Lia Permutation.
 Import ListNotations.
-From Casbin Require Import Base BaseProofs Store StoreProofs Roles RolesProofs Priority Machine.
+From Casbin Require Import Base BaseProofs Store StoreProofs Roles RolesProofs Priority PriorityProofs Machine.
 
 (* ---------- projections through the state updates ---------- *)
 Lemma lookup_set_del {A} k k' (v : A) m : lookup k' (set k v (del k m)) = if String.eqb k' k then Some v else lookup k' m.
@@ -177,7 +177,7 @@ Proof.
   destruct (mem_rule r l) eqn:M.
   - rewrite IH. apply mem_rule_In in M. split; [tauto|]. intros [H|[<-|H]]; auto.
   - specialize (IH (spec_insert prio l r) x). destruct (spec_add_many prio (spec_insert prio l r) t) as [l' aff].
-    cbn [fst] in *. rewrite IH, spec_insert_In. tauto.
+    cbn [fst] in *. rewrite IH, spec_insert_In. intuition (subst; auto).
 Qed.
 
 Lemma remove_first_In r l x : NoDup l -> (In x (remove_first r l) <-> In x l /\ x <> r).
@@ -241,4 +241,688 @@ Proof.
         -- left. split; [left; split; [exact H1|intros ->; apply H2; left; reflexivity]|intros H; apply H2; right; exact H].
         -- left. split; [right; reflexivity|exact Hno].
         -- right. exact H.
+Qed.
+
+(* ---------- guards of the machine operations ---------- *)
+Definition rules_ok (d : adef) (rs : list rule) : Prop :=
+  WF rs /\ (a_is_g d = true -> exact_arity (a_arity d) rs).
+
+Definition content_ok (cfg : mconf) (c : list prule) : Prop :=
+  forall pt r, In (pt, r) c -> wf_rule r = true /\
+    forall d, def_of cfg pt = Some d -> a_is_g d = true -> List.length r = a_arity d.
+
+Fixpoint mop_ok (cfg : mconf) (s : mstate) (op : mop) : Prop :=
+  match op with
+  | MAdd pt r | MRemove pt r => forall d, def_of cfg pt = Some d -> rules_ok d [r]
+  | MAddMany pt rs | MAddManyEx pt rs | MRemoveMany pt rs => forall d, def_of cfg pt = Some d -> rules_ok d rs
+  | MUpdate pt o n => forall d, def_of cfg pt = Some d -> rules_ok d [o; n] /\ ~ In n (pol (get_store s pt))
+  | MUpdateMany pt os ns => forall d, def_of cfg pt = Some d ->
+      rules_ok d os /\ rules_ok d ns /\ NoDup ns /\
+      (forall n, In n ns -> ~ In n (pol (get_store s pt))) /\ (forall n, In n ns -> ~ In n os)
+  | MRemoveFiltered pt fi fvs => in_range fi fvs (pol (get_store s pt))
+  | MUpdateFiltered _ _ _ _ => False
+  | MSelf op' => mop_ok cfg s op'
+  | MLoad => content_ok cfg (content (ad s)) /\ (forall pt d, def_of cfg pt = Some d -> a_is_g d = true -> good_g d)
+  | MClear | MSave | MSetAutoSave _ | MSetAutoNotify _ | MFailNext _ => True
+  end.
+
+(* ---------- helper: links of the listed rules after set-level changes ---------- *)
+Lemma links_of_equiv count a b : (forall x, In x a <-> In x b) -> links_equiv (links_of count a) (links_of count b).
+Proof.
+  intros H l. rewrite !links_of_In. split; intros [r [Hr E]]; exists r; (split; [apply H; exact Hr|exact E]).
+Qed.
+
+Lemma exact_arity_In count a b : (forall x, In x b -> In x a \/ False) -> exact_arity count a -> exact_arity count b.
+Proof. intros H Ha r Hr. destruct (H r Hr) as [Hx|[]]. apply Ha. exact Hx. Qed.
+
+(* after removing the rules rs from the listed NoDup rules l (all of exact arity): the links
+   of what remains are the links of l minus the links of rs *)
+Lemma links_after_removal count l l' rs : good_g {| a_is_g := true; a_arity := count; a_prio := None |} ->
+  exact_arity count l -> exact_arity count rs ->
+  (forall x, In x l' <-> In x l /\ ~ In x rs) ->
+  forall lk, In lk (links_of count l') <-> In lk (links_of count l) /\ ~ In lk (links_of count rs).
+Proof.
+  intros Hc Hl Hr Hset lk. cbn [good_g a_arity] in Hc. rewrite !links_of_In. split.
+  - intros [r [Hin E]]. apply Hset in Hin as [Hin Hn]. split; [eauto|].
+    intros [r2 [Hin2 E2]]. apply Hn.
+    rewrite (link_of_rule_inj count r r2 lk Hc (Hl r Hin) (Hr r2 Hin2) E E2). exact Hin2.
+  - intros [[r [Hin E]] Hn]. exists r. split; [|exact E]. apply Hset. split; [exact Hin|].
+    intros Hin2. apply Hn. exists r. auto.
+Qed.
+
+Lemma links_of_app_In count a lk rs : In lk (links_of count a) \/ In lk (links_of count rs) <->
+  exists r, (In r a \/ In r rs) /\ link_of_rule count r = Some lk.
+Proof.
+  rewrite !links_of_In. split.
+  - intros [[r [H E]]|[r [H E]]]; exists r; auto.
+  - intros [r [[H|H] E]]; [left|right]; exists r; auto.
+Qed.
+
+(* ---------- MInv is preserved by every guarded operation ---------- *)
+Ltac split_persist s call s1 ok old E :=
+  let P := fresh "Pm" in
+  pose proof (persist_mem s call) as P;
+  destruct (persist s call) as [[s1 ok] old] eqn:E; cbn [fst] in P.
+
+Lemma gdef_good cfg s pt d : MInv cfg s -> def_of cfg pt = Some d -> a_is_g d = true -> good_g d.
+Proof. intros [_ G] Hd Hg. apply (G pt d Hd Hg). Qed.
+
+Lemma add_wo_MInv cfg s pt d r : MInv cfg s -> def_of cfg pt = Some d -> rules_ok d [r] ->
+  MInv cfg (fst (add_wo d s pt r)).
+Proof.
+  intros M Hd [W Ha]. unfold add_wo. destruct (has (get_store s pt) r) eqn:H; [exact M|].
+  split_persist s (AAdd pt r) s1 ok old E. destruct ok; cbn [negb]; [|apply (MInv_same_mem cfg s s1 Pm M)].
+  inversion W as [|? ? Wr _]; subst.
+  pose proof (proj1 M pt) as Ist.
+  assert (Ist' : Inv (add (a_prio d) (get_store s pt) r)) by (apply add_Inv; assumption).
+  assert (Hset : forall x, In x (pol (add (a_prio d) (get_store s pt) r)) <-> x = r \/ In x (pol (get_store s pt))).
+  { intros x. rewrite add_pol. apply spec_insert_In. }
+  destruct (a_is_g d) eqn:Hg.
+  - destruct (proj2 M pt d Hd Hg) as [Gg [Ex Le]].
+    pose proof (links_update_mem d (with_store s1 pt (add (a_prio d) (get_store s pt) r)) pt true [r]) as [Mc _].
+    destruct (links_update d (with_store s1 pt (add (a_prio d) (get_store s pt) r)) pt true [r]) as [s3 lok]. cbn [fst] in *.
+    eapply (MInv_change cfg s s3 pt d); [exact M|exact Hd| |exact Ist'|].
+    + eapply mem_change_pre; [exact Pm|]. eapply mem_change_seq; [apply mem_change_store|].
+      rewrite get_store_with_store, String.eqb_refl in Mc. exact Mc.
+    + intros _. split.
+      * intros x Hx. apply Hset in Hx as [->|Hx]; [apply (Ha eq_refl); left; reflexivity|apply Ex; exact Hx].
+      * rewrite get_links_with_store. destruct Pm as [_ PL]. rewrite PL.
+        destruct (build_incremental_add (a_arity d) [r] (get_links s pt) Gg (Ha eq_refl)) as [ls' [B Hl]].
+        rewrite B. cbn [fst]. intros lk. rewrite Hl, (Le lk), links_of_app_In, links_of_In.
+        split; intros [x [Hx Ex']]; exists x; (split; [|exact Ex']).
+        -- apply Hset. destruct Hx as [Hx|[<-|[]]]; auto.
+        -- apply Hset in Hx as [->|Hx]; [right; left; reflexivity|left; exact Hx].
+  - eapply (MInv_change cfg s _ pt d); [exact M|exact Hd| |exact Ist'|intros Hf; congruence].
+    eapply mem_change_pre; [exact Pm|]. destruct Pm as [PS PL].
+    pose proof (mem_change_store s1 pt (add (a_prio d) (get_store s pt) r)) as Mc. rewrite PL in Mc. exact Mc.
+Qed.
+
+(* ---------- the general shape: remove the links of R, then add the links of A ---------- *)
+Lemma links_rm_add count ls l l' R A :
+  (count = 2 \/ count = 3) -> exact_arity count l -> exact_arity count R -> exact_arity count A ->
+  links_equiv ls (links_of count l) ->
+  (forall x, In x l' <-> (In x l /\ ~ In x R) \/ In x A) ->
+  links_equiv (fst (build_incremental count true A (fst (build_incremental count false R ls)))) (links_of count l').
+Proof.
+  intros Hc Hl HR HA Le Hset.
+  destruct (build_incremental_del count R ls Hc HR) as [ls1 [B1 H1]]. rewrite B1. cbn [fst].
+  destruct (build_incremental_add count A ls1 Hc HA) as [ls2 [B2 H2]]. rewrite B2. cbn [fst].
+  intros lk. rewrite H2, H1, (Le lk), !links_of_In. split.
+  - intros [[[r [Hin E]] Hn]|[r [Hin E]]].
+    + exists r. split; [|exact E]. apply Hset. left. split; [exact Hin|].
+      intros HinR. apply Hn. exists r. auto.
+    + exists r. split; [|exact E]. apply Hset. right. exact Hin.
+  - intros [r [Hin E]]. apply Hset in Hin as [[Hin Hn]|Hin].
+    + left. split; [eauto|]. intros [r2 [Hin2 E2]]. apply Hn.
+      rewrite (link_of_rule_inj count r r2 lk Hc (Hl r Hin) (HR r2 Hin2) E E2). exact Hin2.
+    + right. eauto.
+Qed.
+
+Lemma g_finish cfg s s' pt d st' R A :
+  MInv cfg s -> def_of cfg pt = Some d -> a_is_g d = true -> Inv st' ->
+  exact_arity (a_arity d) R -> exact_arity (a_arity d) A ->
+  (forall x, In x (pol st') <-> (In x (pol (get_store s pt)) /\ ~ In x R) \/ In x A) ->
+  mem_change s s' pt st'
+    (fst (build_incremental (a_arity d) true A (fst (build_incremental (a_arity d) false R (get_links s pt))))) ->
+  MInv cfg s'.
+Proof.
+  intros M Hd Hg Ist HR HA Hset Mc. destruct (proj2 M pt d Hd Hg) as [Gg [Ex Le]].
+  eapply (MInv_change cfg s s' pt d); [exact M|exact Hd|exact Mc|exact Ist|]. intros _. split.
+  - intros x Hx. apply Hset in Hx as [[Hx _]|Hx]; [apply Ex; exact Hx|apply HA; exact Hx].
+  - apply (links_rm_add (a_arity d) (get_links s pt) (pol (get_store s pt)) (pol st') R A Gg Ex HR HA Le Hset).
+Qed.
+
+Lemma p_finish cfg s s' pt d st' :
+  MInv cfg s -> def_of cfg pt = Some d -> a_is_g d = false -> Inv st' ->
+  mem_change s s' pt st' (get_links s pt) -> MInv cfg s'.
+Proof.
+  intros M Hd Hg Ist Mc. eapply (MInv_change cfg s s' pt d); [exact M|exact Hd|exact Mc|exact Ist|].
+  intros Hf. congruence.
+Qed.
+
+(* memory effect of "store the new assertion, then update the links" *)
+Lemma store_then_links d s s1 pt st' adding rs :
+  same_mem s s1 ->
+  mem_change s (fst (links_update d (with_store s1 pt st') pt adding rs)) pt st'
+             (fst (build_incremental (a_arity d) adding rs (get_links s pt))).
+Proof.
+  intros Pm. pose proof (links_update_mem d (with_store s1 pt st') pt adding rs) as [Mc _].
+  rewrite get_store_with_store, String.eqb_refl, get_links_with_store in Mc. destruct Pm as [PS PL].
+  rewrite PL in Mc. eapply mem_change_pre; [split; [exact PS|exact PL]|].
+  eapply mem_change_seq; [apply mem_change_store|exact Mc].
+Qed.
+
+Lemma store_only s s1 pt st' : same_mem s s1 -> mem_change s (with_store s1 pt st') pt st' (get_links s pt).
+Proof.
+  intros [PS PL]. eapply mem_change_pre; [split; [exact PS|exact PL]|].
+  pose proof (mem_change_store s1 pt st') as Mc. rewrite PL in Mc. exact Mc.
+Qed.
+
+Lemma exact_nil count : exact_arity count []. Proof. intros r []. Qed.
+
+Lemma add_many_wo_MInv cfg s pt d rs arr : MInv cfg s -> def_of cfg pt = Some d -> rules_ok d rs ->
+  MInv cfg (fst (add_many_wo d s pt rs arr)).
+Proof.
+  intros M Hd [W Ha]. unfold add_many_wo.
+  destruct (negb arr && has_any (get_store s pt) rs); [exact M|].
+  split_persist s (AAddMany pt rs) s1 ok old E. destruct ok; cbn [negb]; [|apply (MInv_same_mem cfg s s1 Pm M)].
+  pose proof (proj1 M pt) as Ist.
+  destruct (add_many_spec (a_prio d) rs (get_store s pt) Ist W) as [Ist' [Pp _]].
+  assert (Hset : forall x, In x (pol (fst (add_many (a_prio d) (get_store s pt) rs))) <->
+                 (In x (pol (get_store s pt)) /\ ~ In x []) \/ In x rs).
+  { intros x. rewrite Pp, spec_add_many_In. cbn [In]. tauto. }
+  destruct (a_is_g d) eqn:Hg.
+  - pose proof (store_then_links d s s1 pt (fst (add_many (a_prio d) (get_store s pt) rs)) true rs Pm) as Mc.
+    destruct (links_update d _ pt true rs) as [s3 lok]. cbn [fst] in *.
+    apply (g_finish cfg s s3 pt d _ [] rs M Hd Hg Ist' (exact_nil _) (Ha eq_refl) Hset Mc).
+  - apply (p_finish cfg s _ pt d _ M Hd Hg Ist'). apply store_only. exact Pm.
+Qed.
+
+Lemma remove_wo_MInv cfg s pt d r : MInv cfg s -> def_of cfg pt = Some d -> rules_ok d [r] ->
+  MInv cfg (fst (remove_wo d s pt r)).
+Proof.
+  intros M Hd [W Ha]. unfold remove_wo.
+  split_persist s (ARemove pt r) s1 ok old E. destruct ok; cbn [negb]; [|apply (MInv_same_mem cfg s s1 Pm M)].
+  inversion W as [|? ? Wr _]; subst.
+  assert (Es : get_store s1 pt = get_store s pt) by (apply Pm).
+  rewrite Es. pose proof (proj1 M pt) as Ist.
+  destruct (remove_spec (get_store s pt) r Ist Wr) as [Ist' [Pp Pb]].
+  destruct (remove (get_store s pt) r) as [st' removed]. cbn [fst snd] in *.
+  destruct removed; cbn [negb]; [|apply (MInv_same_mem cfg s s1 Pm M)].
+  assert (Hset : forall x, In x (pol st') <-> (In x (pol (get_store s pt)) /\ ~ In x [r]) \/ In x []).
+  { intros x. rewrite Pp, (remove_first_In r _ x (Inv_NoDup _ Ist)). cbn [In]. intuition. }
+  destruct (a_is_g d) eqn:Hg.
+  - pose proof (store_then_links d s s1 pt st' false [r] Pm) as Mc.
+    destruct (links_update d _ pt false [r]) as [s3 lok]. cbn [fst] in *.
+    apply (g_finish cfg s s3 pt d _ [r] [] M Hd Hg Ist' (Ha eq_refl) (exact_nil _) Hset Mc).
+  - apply (p_finish cfg s _ pt d _ M Hd Hg Ist'). apply store_only. exact Pm.
+Qed.
+
+Lemma remove_many_wo_MInv cfg s pt d rs : MInv cfg s -> def_of cfg pt = Some d -> rules_ok d rs ->
+  MInv cfg (fst (remove_many_wo d s pt rs)).
+Proof.
+  intros M Hd [W Ha]. unfold remove_many_wo.
+  destruct (negb (has_any (get_store s pt) rs)); [exact M|].
+  split_persist s (ARemoveMany pt rs) s1 ok old E. destruct ok; cbn [negb]; [|apply (MInv_same_mem cfg s s1 Pm M)].
+  pose proof (proj1 M pt) as Ist.
+  destruct (remove_many_spec rs (get_store s pt) Ist W) as [Ist' [Pp _]].
+  destruct (remove_many (get_store s pt) rs) as [st' aff]. cbn [fst] in *.
+  destruct aff as [|a0 aff']; [apply (MInv_same_mem cfg s s1 Pm M)|].
+  assert (Hset : forall x, In x (pol st') <-> (In x (pol (get_store s pt)) /\ ~ In x rs) \/ In x []).
+  { intros x. rewrite Pp, (spec_remove_many_In rs _ x (Inv_NoDup _ Ist)). cbn [In]. tauto. }
+  destruct (a_is_g d) eqn:Hg.
+  - pose proof (store_then_links d s s1 pt st' false rs Pm) as Mc.
+    destruct (links_update d _ pt false rs) as [s3 lok]. cbn [fst] in *.
+    apply (g_finish cfg s s3 pt d _ rs [] M Hd Hg Ist' (Ha eq_refl) (exact_nil _) Hset Mc).
+  - apply (p_finish cfg s _ pt d _ M Hd Hg Ist'). apply store_only. exact Pm.
+Qed.
+
+Lemma store_then_two_links d s s1 pt st' R A :
+  same_mem s s1 ->
+  mem_change s (fst (links_update d (fst (links_update d (with_store s1 pt st') pt false R)) pt true A)) pt st'
+    (fst (build_incremental (a_arity d) true A (fst (build_incremental (a_arity d) false R (get_links s pt))))).
+Proof.
+  intros Pm. pose proof (store_then_links d s s1 pt st' false R Pm) as Mc1.
+  set (s3 := fst (links_update d (with_store s1 pt st') pt false R)) in *.
+  pose proof (links_update_mem d s3 pt true A) as [Mc2 _].
+  destruct Mc1 as [S1 L1]. rewrite (S1 pt), (L1 pt), String.eqb_refl in Mc2.
+  eapply mem_change_seq; [split; [exact S1|exact L1]|exact Mc2].
+Qed.
+
+Lemma update_wo_MInv cfg s pt d o n : MInv cfg s -> def_of cfg pt = Some d -> rules_ok d [o; n] ->
+  ~ In n (pol (get_store s pt)) -> MInv cfg (fst (update_wo d s pt o n)).
+Proof.
+  intros M Hd [W Ha] Nn. unfold update_wo.
+  split_persist s (AUpdate pt o n) s1 ok old E. destruct ok; cbn [negb]; [|apply (MInv_same_mem cfg s s1 Pm M)].
+  inversion W as [|? ? Wo W']; subst. inversion W' as [|? ? Wn _]; subst.
+  assert (Es : get_store s1 pt = get_store s pt) by (apply Pm). rewrite Es.
+  pose proof (proj1 M pt) as Ist.
+  destruct (update_spec (get_store s pt) o n Ist Wo Wn Nn) as [Ist' [Pp Pb]].
+  destruct (update (get_store s pt) o n) as [st' updated]. cbn [fst snd] in *.
+  destruct updated; cbn [negb]; [|apply (MInv_same_mem cfg s s1 Pm M)].
+  symmetry in Pb. apply mem_rule_In in Pb.
+  assert (Hset : forall x, In x (pol st') <-> (In x (pol (get_store s pt)) /\ ~ In x [o]) \/ In x [n]).
+  { intros x. rewrite Pp, (replace_first_In_iff o n _ x (Inv_NoDup _ Ist) Pb Nn). cbn [In]. intuition. }
+  destruct (a_is_g d) eqn:Hg.
+  - pose proof (store_then_two_links d s s1 pt st' [o] [n] Pm) as Mc.
+    assert (HR : exact_arity (a_arity d) [o]) by (intros x [<-|[]]; apply (Ha eq_refl); left; reflexivity).
+    assert (HA : exact_arity (a_arity d) [n]) by (intros x [<-|[]]; apply (Ha eq_refl); right; left; reflexivity).
+    destruct (links_update d (with_store s1 pt st') pt false [o]) as [s3 lok1] eqn:E1. cbn [fst] in Mc.
+    destruct lok1; cbn [negb].
+    + destruct (links_update d s3 pt true [n]) as [s4 lok2]. cbn [fst] in *.
+      apply (g_finish cfg s s4 pt d _ [o] [n] M Hd Hg Ist' HR HA Hset Mc).
+    + (* the first link update cannot fail on a rule of the definition's arity *)
+      exfalso. pose proof (links_update_mem d (with_store s1 pt st') pt false [o]) as [_ Hok]. rewrite E1 in Hok. cbn [snd] in Hok.
+      destruct (build_incremental_del (a_arity d) [o] (get_links (with_store s1 pt st') pt) (gdef_good cfg s pt d M Hd Hg) HR) as [ls' [B _]].
+      rewrite B in Hok. discriminate.
+  - apply (p_finish cfg s _ pt d _ M Hd Hg Ist'). apply store_only. exact Pm.
+Qed.
+
+Lemma update_many_wo_MInv cfg s pt d os ns : MInv cfg s -> def_of cfg pt = Some d ->
+  rules_ok d os -> rules_ok d ns -> NoDup ns ->
+  (forall n, In n ns -> ~ In n (pol (get_store s pt))) -> (forall n, In n ns -> ~ In n os) ->
+  MInv cfg (fst (update_many_wo d s pt os ns)).
+Proof.
+  intros M Hd [Wo Hao] [Wn Han] NDn Hf Hdj. unfold update_many_wo.
+  destruct (Nat.eqb (List.length os) (List.length ns)) eqn:El; cbn [negb]; [|exact M]. apply Nat.eqb_eq in El.
+  split_persist s (AUpdateMany pt os ns) s1 ok old E. destruct ok; cbn [negb]; [|apply (MInv_same_mem cfg s s1 Pm M)].
+  assert (Es : get_store s1 pt = get_store s pt) by (apply Pm). rewrite Es.
+  pose proof (proj1 M pt) as Ist.
+  destruct (update_many_spec (get_store s pt) os ns Ist Wo Wn NDn Hf Hdj) as [Ist' Hs].
+  destruct (update_many (get_store s pt) os ns) as [st' updated]. cbn [fst snd] in *.
+  destruct (spec_update_many (pol (get_store s pt)) os ns) as [l'|] eqn:Esp; destruct Hs as [Hb Hp]; subst updated; cbn [negb].
+  - destruct (spec_update_many_In os ns _ l' [] (Inv_NoDup _ Ist) NDn Hf Hdj Esp El) as [_ _].
+    assert (Hset : forall x, In x (pol st') <-> (In x (pol (get_store s pt)) /\ ~ In x os) \/ In x ns).
+    { intros x. rewrite Hp. apply (spec_update_many_In os ns _ l' x (Inv_NoDup _ Ist) NDn Hf Hdj Esp El). }
+    destruct (a_is_g d) eqn:Hg.
+    + pose proof (store_then_two_links d s s1 pt st' os ns Pm) as Mc.
+      destruct (links_update d (with_store s1 pt st') pt false os) as [s3 lok1] eqn:E1. cbn [fst] in Mc.
+      destruct lok1; cbn [negb].
+      * destruct (links_update d s3 pt true ns) as [s4 lok2]. cbn [fst] in *.
+        apply (g_finish cfg s s4 pt d _ os ns M Hd Hg Ist' (Hao eq_refl) (Han eq_refl) Hset Mc).
+      * exfalso. pose proof (links_update_mem d (with_store s1 pt st') pt false os) as [_ Hok]. rewrite E1 in Hok. cbn [snd] in Hok.
+        destruct (build_incremental_del (a_arity d) os (get_links (with_store s1 pt st') pt) (gdef_good cfg s pt d M Hd Hg) (Hao eq_refl)) as [ls' [B _]].
+        rewrite B in Hok. discriminate.
+    + apply (p_finish cfg s _ pt d _ M Hd Hg Ist'). apply store_only. exact Pm.
+  - (* refused batch: the store was rolled back; same rules, an equivalent index *)
+    eapply (MInv_change cfg s _ pt d); [exact M|exact Hd|apply store_only; exact Pm|exact Ist'|].
+    intros Hg. destruct (proj2 M pt d Hd Hg) as [_ [Ex Le]]. rewrite Hp. split; assumption.
+Qed.
+
+Lemma remove_filtered_wo_MInv cfg s pt d fi fvs : MInv cfg s -> def_of cfg pt = Some d ->
+  in_range fi fvs (pol (get_store s pt)) -> MInv cfg (fst (remove_filtered_wo d s pt fi fvs)).
+Proof.
+  intros M Hd Hr. unfold remove_filtered_wo. destruct fvs as [|fv fvs']; [exact M|].
+  split_persist s (ARemoveFiltered pt fi (fv :: fvs')) s1 ok old E. destruct ok; cbn [negb]; [|apply (MInv_same_mem cfg s s1 Pm M)].
+  assert (Es : get_store s1 pt = get_store s pt) by (apply Pm). rewrite Es.
+  pose proof (proj1 M pt) as Ist.
+  destruct (remove_filtered_spec (get_store s pt) fi (fv :: fvs') Ist Hr) as (st' & res & eff & Er & Ist' & Pp & Pe & Pr).
+  rewrite Er.
+  assert (Hset : forall x, In x (pol st') <-> (In x (pol (get_store s pt)) /\ ~ In x eff) \/ In x []).
+  { intros x. rewrite Pp, Pe, !filter_In. cbn [In]. split.
+    - intros [Hx Hm]. left. split; [exact Hx|]. intros [_ Hm2]. rewrite Hm2 in Hm. discriminate.
+    - intros [[Hx Hn]|[]]. split; [exact Hx|]. destruct (matches_spec fi (fv :: fvs') x) eqn:Em; [exfalso; apply Hn; auto|reflexivity]. }
+  destruct res; cbn [negb].
+  - destruct (a_is_g d) eqn:Hg.
+    + pose proof (store_then_links d s s1 pt st' false eff Pm) as Mc.
+      destruct (links_update d _ pt false eff) as [s3 lok]. cbn [fst] in *.
+      destruct (proj2 M pt d Hd Hg) as [_ [Ex _]].
+      assert (He : exact_arity (a_arity d) eff) by (intros x Hx; rewrite Pe in Hx; apply filter_In in Hx as [Hx _]; apply Ex; exact Hx).
+      apply (g_finish cfg s s3 pt d _ eff [] M Hd Hg Ist' He (exact_nil _) Hset Mc).
+    + apply (p_finish cfg s _ pt d _ M Hd Hg Ist'). apply store_only. exact Pm.
+  - (* nothing matched: same rules, index rebuilt *)
+    eapply (MInv_change cfg s _ pt d); [exact M|exact Hd|apply store_only; exact Pm|exact Ist'|].
+    intros Hg. destruct (proj2 M pt d Hd Hg) as [_ [Ex Le]].
+    assert (Hp : pol st' = pol (get_store s pt)).
+    { rewrite Pp. apply filter_all. apply forallb_forall. intros x Hx. apply negb_true_iff.
+      destruct (matches_spec fi (fv :: fvs') x) eqn:Em; [|reflexivity].
+      assert (existsb (matches_spec fi (fv :: fvs')) (pol (get_store s pt)) = true) by (apply existsb_exists; eauto). congruence. }
+    rewrite Hp. split; assumption.
+Qed.
+
+(* ---------- ClearPolicy ---------- *)
+Lemma clear_policy_MInv cfg s : MInv cfg s -> MInv cfg (fst (clear_policy cfg s)).
+Proof.
+  intros M. unfold clear_policy. cbn [fst]. split.
+  - intros pt. unfold get_store. cbn [stores lookup]. apply empty_Inv.
+  - intros pt d Hd Hg. destruct (proj2 M pt d Hd Hg) as [Gg _]. split; [exact Gg|].
+    unfold get_store, get_links. cbn [stores rlinks lookup pol empty_store].
+    split; [intros r []|].
+    assert (L : forall m : smap (list link), match lookup pt (map (fun e => (fst e, @nil link)) m) with Some l => l | None => [] end = []).
+    { induction m as [|[k v] t IH]; cbn [map lookup fst]; [reflexivity|]. destruct (String.eqb pt k); [reflexivity|exact IH]. }
+    rewrite L. intros l. cbn. tauto.
+Qed.
+
+(* ---------- LoadPolicy ---------- *)
+Definition mget (m : smap store) (pt : string) : store :=
+  match lookup pt m with Some st => st | None => empty_store end.
+
+Definition LInv (cfg : mconf) (m : smap store) : Prop :=
+  (forall pt, Inv (mget m pt)) /\
+  (forall pt d, def_of cfg pt = Some d -> a_is_g d = true -> exact_arity (a_arity d) (pol (mget m pt))).
+
+Lemma mget_set_del m pt st pt' : mget (set pt st (del pt m)) pt' = if String.eqb pt' pt then st else mget m pt'.
+Proof. unfold mget. rewrite lookup_set_del. destruct (String.eqb pt' pt); reflexivity. Qed.
+
+Lemma load_one_LInv cfg m x m' : LInv cfg m -> content_ok cfg [x] -> load_one cfg m x = Some m' -> LInv cfg m'.
+Proof.
+  intros [I A] Hc H. destruct x as [pt r]. cbn [load_one] in H.
+  destruct (Hc pt r (or_introl eq_refl)) as [Wr Har].
+  destruct (def_of cfg pt) as [d|] eqn:Hd; [|discriminate].
+  destruct (if a_is_g d then _ else _); [discriminate|].
+  fold (mget m pt) in H. destruct (has (mget m pt) r) eqn:Hh; inversion H; subst; [split; assumption|].
+  split.
+  - intros pt'. rewrite mget_set_del. destruct (String.eqb pt' pt); [apply add_Inv; [apply I|exact Wr|exact Hh]|apply I].
+  - intros pt' d' Hd' Hg'. rewrite mget_set_del. destruct (String.eqb pt' pt) eqn:E; [|apply A; assumption].
+    apply String.eqb_eq in E. subst pt'. rewrite Hd in Hd'. inversion Hd'; subst d'.
+    intros x Hx. rewrite add_pol in Hx. apply spec_insert_In in Hx as [->|Hx]; [apply (Har d eq_refl Hg')|apply (A pt d Hd Hg'); exact Hx].
+Qed.
+
+Lemma load_all_LInv cfg c : forall m m', LInv cfg m -> content_ok cfg c -> load_all cfg m c = Some m' -> LInv cfg m'.
+Proof.
+  induction c as [|x t IH]; intros m m' L Hc H; cbn [load_all] in H; [inversion H; subst; exact L|].
+  destruct (load_one cfg m x) as [m1|] eqn:E; [|discriminate].
+  apply (IH m1 m'); [|intros pt r Hin; apply Hc; right; exact Hin|exact H].
+  apply (load_one_LInv cfg m x m1 L); [|exact E]. intros pt r [Hx|[]]. apply Hc. left. exact Hx.
+Qed.
+
+Lemma LInv_nil cfg : LInv cfg [].
+Proof. split; [intros pt; apply empty_Inv|intros pt d _ _ r []]. Qed.
+
+Lemma reindex_all_Inv st l : Inv st -> Permutation l (pol st) -> Inv {| pol := l; idx := reindex_all l (idx st) |}.
+Proof.
+  intros [[ND C] W] P.
+  assert (NDl : NoDup (map key l)) by (eapply Permutation_NoDup; [apply Permutation_sym, Permutation_map; exact P|exact ND]).
+  split; [split; [exact NDl|]|].
+  - intros k. cbn [pol idx]. unfold reindex_all. rewrite lookup_reindex by exact NDl.
+    destruct (find_key k l 0) eqn:E; [reflexivity|]. rewrite C. apply (find_key_None k (pol st) 0).
+    apply (find_key_None k l 0) in E. intros Hin. apply E.
+    apply (Permutation_in _ (Permutation_sym (Permutation_map key P))). exact Hin.
+  - cbn [pol]. apply Forall_forall. intros x Hx. apply (Permutation_in _ P) in Hx. eapply Forall_forall in W; eassumption.
+Qed.
+
+Lemma mget_sort_stores cfg m pt :
+  mget (sort_stores cfg m) pt = mget m pt \/
+  (exists c, Permutation (pol (mget (sort_stores cfg m) pt)) (pol (mget m pt)) /\
+     mget (sort_stores cfg m) pt = {| pol := sort_by_priority c (pol (mget m pt)); idx := reindex_all (sort_by_priority c (pol (mget m pt))) (idx (mget m pt)) |}
+     /\ exists d, def_of cfg pt = Some d /\ a_is_g d = false).
+Proof.
+  unfold mget, sort_stores. induction m as [|[k st] t IH]; cbn [map lookup]; [left; reflexivity|].
+  destruct (def_of cfg k) as [d|] eqn:Hd.
+  - destruct (a_prio d) as [c|].
+    + destruct (a_is_g d) eqn:Hg; cbn [lookup].
+      * destruct (String.eqb pt k); [left; reflexivity|exact IH].
+      * destruct (String.eqb pt k) eqn:E; [|exact IH]. apply String.eqb_eq in E. subst k.
+        right. exists c. cbn [pol]. split; [unfold sort_by_priority; apply insertion_sort_perm|]. split; [reflexivity|]. exists d. auto.
+    + cbn [lookup]. destruct (String.eqb pt k); [left; reflexivity|exact IH].
+  - cbn [lookup]. destruct (String.eqb pt k); [left; reflexivity|exact IH].
+Qed.
+
+Lemma rebuild_links_spec cfg m defs :
+  (forall pt d, In (pt, d) defs -> a_is_g d = true -> good_g d /\ exact_arity (a_arity d) (pol (mget m pt))) ->
+  snd (rebuild_links cfg m defs) = true /\
+  forall pt d, lookup pt defs = Some d -> a_is_g d = true ->
+    lookup pt (fst (rebuild_links cfg m defs)) = Some (fst (rebuild (a_arity d) (pol (mget m pt)))).
+Proof.
+  induction defs as [|[k dk] t IH]; intros H; cbn [rebuild_links].
+  - split; [reflexivity|]. intros pt d Hd. discriminate.
+  - assert (Ht : forall pt d, In (pt, d) t -> a_is_g d = true -> good_g d /\ exact_arity (a_arity d) (pol (mget m pt)))
+      by (intros pt d Hin; apply H; right; exact Hin).
+    destruct (IH Ht) as [Ok L]. destruct (a_is_g dk) eqn:Hg.
+    + destruct (H k dk (or_introl eq_refl) Hg) as [Gg Ex]. fold (mget m k).
+      unfold rebuild in *. destruct (build_incremental_add (a_arity dk) (pol (mget m k)) [] Gg Ex) as [ls' [B _]].
+      rewrite !B. destruct (rebuild_links cfg m t) as [rest ok']. cbn [fst snd] in *. split; [exact Ok|].
+      intros pt d Hd Hgd. cbn [lookup] in Hd. cbn [fst lookup]. destruct (String.eqb pt k) eqn:E.
+      * inversion Hd; subst d. apply String.eqb_eq in E. subst k. rewrite B. reflexivity.
+      * apply L; assumption.
+    + split; [exact Ok|]. intros pt d Hd Hgd. cbn [lookup] in Hd. destruct (String.eqb pt k) eqn:E.
+      * inversion Hd; subst d. congruence.
+      * apply L; assumption.
+Qed.
+
+Lemma lookup_In {A} k (v : A) m : lookup k m = Some v -> In (k, v) m.
+Proof.
+  induction m as [|[k' v'] t IH]; cbn [lookup]; [discriminate|]. destruct (String.eqb k k') eqn:E.
+  - intros H. inversion H; subst. apply String.eqb_eq in E. subst. left. reflexivity.
+  - intros H. right. apply IH. exact H.
+Qed.
+
+Lemma In_lookup {A} k (v : A) m : NoDup (map fst m) -> In (k, v) m -> lookup k m = Some v.
+Proof.
+  induction m as [|[k' v'] t IH]; cbn [map fst lookup In]; intros ND H; [contradiction|]. inversion ND; subst.
+  destruct H as [H|H].
+  - inversion H; subst. rewrite String.eqb_refl. reflexivity.
+  - destruct (String.eqb k k') eqn:E; [|apply IH; assumption].
+    apply String.eqb_eq in E. subst k'. exfalso. apply H2. apply in_map_iff. exists (k, v). auto.
+Qed.
+
+Lemma load_policy_MInv cfg s : NoDup (map fst cfg) -> MInv cfg s -> content_ok cfg (content (ad s)) ->
+  (forall pt d, def_of cfg pt = Some d -> a_is_g d = true -> good_g d) ->
+  MInv cfg (fst (load_policy cfg s)).
+Proof.
+  intros NDc M Hc Hgood. unfold load_policy.
+  destruct (adapter_call (ad s) ALoad) as [[a ok] old] eqn:Ea.
+  assert (Sm : same_mem s (with_ad s a)) by (split; reflexivity).
+  assert (Eca : ok = true -> content a = content (ad s)).
+  { unfold adapter_call in Ea. destruct (fail_in (ad s)) as [[|k]|]; inversion Ea; subst; cbn [content]; auto; discriminate. }
+  destruct ok; cbn [negb]; [|apply (MInv_same_mem _ _ _ Sm M)].
+  rewrite (Eca eq_refl).
+  destruct (load_all cfg [] (content (ad s))) as [m|] eqn:El; [|apply (MInv_same_mem _ _ _ Sm M)].
+  pose proof (load_all_LInv cfg _ [] m (LInv_nil cfg) Hc El) as [LI LA].
+  assert (SI : forall pt, Inv (mget (sort_stores cfg m) pt)).
+  { intros pt. destruct (mget_sort_stores cfg m pt) as [E|[c [P [E _]]]]; [rewrite E; apply LI|].
+    rewrite E. apply reindex_all_Inv; [apply LI|]. unfold sort_by_priority. apply insertion_sort_perm. }
+  assert (SA : forall pt d, def_of cfg pt = Some d -> a_is_g d = true ->
+             mget (sort_stores cfg m) pt = mget m pt).
+  { intros pt d Hd Hg. destruct (mget_sort_stores cfg m pt) as [E|[c [_ [_ [d' [Hd' Hg']]]]]]; [exact E|]. congruence. }
+  destruct (rebuild_links_spec cfg (sort_stores cfg m) cfg) as [Ok L].
+  { intros pt d Hin Hg. pose proof (In_lookup pt d cfg NDc Hin) as Hd. split; [apply (Hgood pt d Hd Hg)|].
+    rewrite (SA pt d Hd Hg). apply (LA pt d Hd Hg). }
+  destruct (rebuild_links cfg (sort_stores cfg m) cfg) as [ls lok]. cbn [fst snd] in *. subst lok. cbn [negb fst].
+  split.
+  - intros pt. unfold get_store. cbn [stores]. apply SI.
+  - intros pt d Hd Hg. split; [apply (Hgood pt d Hd Hg)|].
+    unfold get_store, get_links. cbn [stores rlinks]. fold (mget (sort_stores cfg m) pt).
+    rewrite (SA pt d Hd Hg), (L pt d Hd Hg), (SA pt d Hd Hg). split; [apply (LA pt d Hd Hg)|].
+    unfold rebuild. destruct (build_incremental_add (a_arity d) (pol (mget m pt)) [] (Hgood pt d Hd Hg) (LA pt d Hd Hg)) as [ls' [B Hl]].
+    rewrite B. cbn [fst]. intros lk. rewrite Hl. cbn [In]. tauto.
+Qed.
+
+(* ---------- every operation ---------- *)
+Lemma save_policy_mem cfg s : same_mem s (fst (save_policy cfg s)).
+Proof.
+  unfold save_policy. destruct (adapter_call (ad s) (ASave (all_prules cfg s))) as [[a ok] old].
+  destruct ok; cbn [negb]; [|split; reflexivity]. cbn [with_ad watcher]. destruct (watcher s); split; reflexivity.
+Qed.
+
+Theorem step_wo_MInv cfg op : forall s nt, NoDup (map fst cfg) -> MInv cfg s -> mop_ok cfg s op ->
+  MInv cfg (fst (step_wo cfg s op nt)).
+Proof.
+  induction op; intros s nt NDc M G; cbn [step_wo mop_ok] in *;
+    try (destruct (def_of cfg pt) as [d|] eqn:Hd; [|exact M]).
+  - specialize (G d eq_refl). destruct nt; cbn [fst snd];
+      [eapply MInv_same_mem; [apply notify_mem|]|]; apply add_wo_MInv; assumption.
+  - specialize (G d eq_refl). destruct nt; cbn [fst snd];
+      [eapply MInv_same_mem; [apply notify_mem|]|]; apply add_many_wo_MInv; assumption.
+  - specialize (G d eq_refl). destruct nt; cbn [fst snd];
+      [eapply MInv_same_mem; [apply notify_mem|]|]; apply add_many_wo_MInv; assumption.
+  - specialize (G d eq_refl). destruct nt; cbn [fst snd];
+      [eapply MInv_same_mem; [apply notify_mem|]|]; apply remove_wo_MInv; assumption.
+  - specialize (G d eq_refl). destruct nt; cbn [fst snd];
+      [eapply MInv_same_mem; [apply notify_mem|]|]; apply remove_many_wo_MInv; assumption.
+  - destruct (G d eq_refl) as [G1 G2]. destruct nt; cbn [fst snd];
+      [eapply MInv_same_mem; [apply notify_mem|]|]; apply update_wo_MInv; assumption.
+  - destruct (G d eq_refl) as [G1 [G2 [G3 [G4 G5]]]]. destruct nt; cbn [fst snd];
+      [eapply MInv_same_mem; [apply notify_mem|]|]; apply update_many_wo_MInv; assumption.
+  - destruct nt; cbn [fst snd];
+      [eapply MInv_same_mem; [apply notify_mem|]|]; apply remove_filtered_wo_MInv; assumption.
+  - contradiction.
+  - apply IHop; assumption.
+  - apply clear_policy_MInv. exact M.
+  - destruct G as [G1 G2]. apply load_policy_MInv; assumption.
+  - eapply MInv_same_mem; [apply save_policy_mem|exact M].
+  - cbn [fst]. eapply MInv_same_mem; [|exact M]. split; reflexivity.
+  - cbn [fst]. eapply MInv_same_mem; [|exact M]. split; reflexivity.
+  - cbn [fst]. eapply MInv_same_mem; [|exact M]. split; reflexivity.
+Qed.
+
+Fixpoint mguards (cfg : mconf) (s : mstate) (ops : list mop) : Prop :=
+  match ops with
+  | [] => True
+  | op :: t => mop_ok cfg s op /\ mguards cfg (fst (step cfg s op)) t
+  end.
+
+Theorem run_MInv cfg ops : forall s, NoDup (map fst cfg) -> MInv cfg s -> mguards cfg s ops ->
+  MInv cfg (fst (run cfg s ops)).
+Proof.
+  induction ops as [|op t IH]; intros s NDc M G; cbn [run fst]; [exact M|]. destruct G as [G1 G2].
+  pose proof (step_wo_MInv cfg op s true NDc M G1) as M1. fold (step cfg s op) in M1.
+  destruct (step cfg s op) as [s1 r1]. cbn [fst] in *. specialize (IH s1 NDc M1 G2).
+  destruct (run cfg s1 t). exact IH.
+Qed.
+
+Lemma init_MInv cfg sv nt w c : (forall pt d, def_of cfg pt = Some d -> a_is_g d = true -> good_g d) ->
+  MInv cfg (init_state cfg sv nt w c).
+Proof.
+  intros Hg. split.
+  - intros pt. apply empty_Inv.
+  - intros pt d Hd Hgd. split; [apply (Hg pt d Hd Hgd)|]. unfold get_store, get_links. cbn [init_state stores rlinks lookup pol empty_store].
+    split; [intros r []|intros l; cbn; tauto].
+Qed.
+
+(* ---------- C05: the role graph answers like one rebuilt from the listed rules ---------- *)
+Theorem links_mirror_listed cfg s pt d : MInv cfg s -> def_of cfg pt = Some d -> a_is_g d = true ->
+  links_equiv (get_links s pt) (fst (rebuild (a_arity d) (pol (get_store s pt)))).
+Proof.
+  intros M Hd Hg. destruct (proj2 M pt d Hd Hg) as [Gg [Ex Le]].
+  unfold rebuild. destruct (build_incremental_add (a_arity d) (pol (get_store s pt)) [] Gg Ex) as [ls' [B Hl]].
+  rewrite B. cbn [fst]. intros lk. rewrite (Le lk), Hl. cbn [In]. tauto.
+Qed.
+
+Theorem incremental_eq_rebuilt cfg s pt d (u r dom : string) : MInv cfg s -> def_of cfg pt = Some d -> a_is_g d = true ->
+  has_link (get_links s pt) u r dom = has_link (fst (rebuild (a_arity d) (pol (get_store s pt)))) u r dom /\
+  (forall x, In x (get_roles (get_links s pt) u dom) <-> In x (get_roles (fst (rebuild (a_arity d) (pol (get_store s pt)))) u dom)) /\
+  (forall x, In x (get_users (get_links s pt) u dom) <-> In x (get_users (fst (rebuild (a_arity d) (pol (get_store s pt)))) u dom)).
+Proof.
+  intros M Hd Hg. pose proof (links_mirror_listed cfg s pt d M Hd Hg) as E.
+  split; [apply has_link_equiv; exact E|]. split; intros x; [apply get_roles_equiv|apply get_users_equiv]; exact E.
+Qed.
+
+(* ---------- isolation: a call on one policy type / role definition touches no other ---------- *)
+Definition touches_only (s s' : mstate) (pt : string) : Prop :=
+  forall pt', pt' <> pt -> get_store s' pt' = get_store s pt' /\ get_links s' pt' = get_links s pt'.
+
+Lemma same_mem_touches s s' pt : same_mem s s' -> touches_only s s' pt.
+Proof. intros [S L] pt' _. auto. Qed.
+Lemma mem_change_touches s s' pt st ls : mem_change s s' pt st ls -> touches_only s s' pt.
+Proof. intros [S L] pt' H. apply String.eqb_neq in H. rewrite S, L, H. auto. Qed.
+Lemma touches_trans a b c pt : touches_only a b pt -> touches_only b c pt -> touches_only a c pt.
+Proof. intros H1 H2 pt' H. destruct (H1 pt' H) as [A1 A2]. destruct (H2 pt' H) as [B1 B2]. split; congruence. Qed.
+
+Lemma with_store_touches s pt st : touches_only s (with_store s pt st) pt.
+Proof. eapply mem_change_touches. apply mem_change_store. Qed.
+Lemma links_update_touches d s pt a rs : touches_only s (fst (links_update d s pt a rs)) pt.
+Proof. eapply mem_change_touches. apply (proj1 (links_update_mem d s pt a rs)). Qed.
+Lemma persist_touches s c pt : touches_only s (fst (fst (persist s c))) pt.
+Proof. apply same_mem_touches. apply persist_mem. Qed.
+
+Ltac touch_step :=
+  cbn [fst];
+  match goal with
+  | |- touches_only ?s ?s _ => apply same_mem_touches, same_mem_refl
+  | |- touches_only ?s (fst (links_update ?d ?s1 ?pt ?a ?rs)) ?pt =>
+      apply (touches_trans s s1 _ pt); [|apply links_update_touches]
+  | |- touches_only ?s (with_store ?s1 ?pt ?st) ?pt =>
+      apply (touches_trans s s1 _ pt); [|apply with_store_touches]
+  end.
+
+Lemma add_wo_touches d s pt r : touches_only s (fst (add_wo d s pt r)) pt.
+Proof.
+  unfold add_wo. destruct (has _ r); [touch_step|].
+  pose proof (persist_touches s (AAdd pt r) pt) as P. destruct (persist s (AAdd pt r)) as [[s1 ok] old]. cbn [fst] in P.
+  destruct ok; cbn [negb]; [|exact P]. destruct (a_is_g d).
+  - destruct (links_update d _ pt true [r]) as [s3 lok] eqn:E. cbn [fst].
+    replace s3 with (fst (links_update d (with_store s1 pt (add (a_prio d) (get_store s pt) r)) pt true [r])) by (rewrite E; reflexivity).
+    repeat touch_step. exact P.
+  - cbn [fst]. touch_step. exact P.
+Qed.
+
+Lemma add_many_wo_touches d s pt rs arr : touches_only s (fst (add_many_wo d s pt rs arr)) pt.
+Proof.
+  unfold add_many_wo. destruct (negb arr && has_any _ rs); [touch_step|].
+  pose proof (persist_touches s (AAddMany pt rs) pt) as P. destruct (persist s (AAddMany pt rs)) as [[s1 ok] old]. cbn [fst] in P.
+  destruct ok; cbn [negb]; [|exact P]. destruct (a_is_g d).
+  - destruct (links_update d _ pt true rs) as [s3 lok] eqn:E. cbn [fst].
+    replace s3 with (fst (links_update d (with_store s1 pt (fst (add_many (a_prio d) (get_store s pt) rs))) pt true rs)) by (rewrite E; reflexivity).
+    repeat touch_step. exact P.
+  - cbn [fst]. touch_step. exact P.
+Qed.
+
+Lemma remove_wo_touches d s pt r : touches_only s (fst (remove_wo d s pt r)) pt.
+Proof.
+  unfold remove_wo.
+  pose proof (persist_touches s (ARemove pt r) pt) as P. destruct (persist s (ARemove pt r)) as [[s1 ok] old]. cbn [fst] in P.
+  destruct ok; cbn [negb]; [|exact P]. destruct (remove (get_store s1 pt) r) as [st' removed].
+  destruct removed; cbn [negb]; [|exact P]. destruct (a_is_g d).
+  - destruct (links_update d _ pt false [r]) as [s3 lok] eqn:E. cbn [fst].
+    replace s3 with (fst (links_update d (with_store s1 pt st') pt false [r])) by (rewrite E; reflexivity).
+    repeat touch_step. exact P.
+  - cbn [fst]. touch_step. exact P.
+Qed.
+
+Lemma remove_many_wo_touches d s pt rs : touches_only s (fst (remove_many_wo d s pt rs)) pt.
+Proof.
+  unfold remove_many_wo. destruct (negb (has_any _ rs)); [touch_step|].
+  pose proof (persist_touches s (ARemoveMany pt rs) pt) as P. destruct (persist s (ARemoveMany pt rs)) as [[s1 ok] old]. cbn [fst] in P.
+  destruct ok; cbn [negb]; [|exact P]. destruct (remove_many (get_store s pt) rs) as [st' aff].
+  destruct aff; [exact P|]. destruct (a_is_g d).
+  - destruct (links_update d _ pt false rs) as [s3 lok] eqn:E. cbn [fst].
+    replace s3 with (fst (links_update d (with_store s1 pt st') pt false rs)) by (rewrite E; reflexivity).
+    repeat touch_step. exact P.
+  - cbn [fst]. touch_step. exact P.
+Qed.
+
+Lemma update_wo_touches d s pt o n : touches_only s (fst (update_wo d s pt o n)) pt.
+Proof.
+  unfold update_wo.
+  pose proof (persist_touches s (AUpdate pt o n) pt) as P. destruct (persist s (AUpdate pt o n)) as [[s1 ok] old]. cbn [fst] in P.
+  destruct ok; cbn [negb]; [|exact P]. destruct (update (get_store s1 pt) o n) as [st' updated].
+  destruct updated; cbn [negb]; [|exact P]. destruct (a_is_g d).
+  - destruct (links_update d (with_store s1 pt st') pt false [o]) as [s3 lok1] eqn:E1.
+    assert (T3 : touches_only s s3 pt).
+    { replace s3 with (fst (links_update d (with_store s1 pt st') pt false [o])) by (rewrite E1; reflexivity). repeat touch_step. exact P. }
+    destruct lok1; cbn [negb fst]; [|exact T3].
+    destruct (links_update d s3 pt true [n]) as [s4 lok2] eqn:E2. cbn [fst].
+    replace s4 with (fst (links_update d s3 pt true [n])) by (rewrite E2; reflexivity). touch_step. exact T3.
+  - cbn [fst]. touch_step. exact P.
+Qed.
+
+Lemma update_many_wo_touches d s pt os ns : touches_only s (fst (update_many_wo d s pt os ns)) pt.
+Proof.
+  unfold update_many_wo. destruct (negb (Nat.eqb _ _)); [touch_step|].
+  pose proof (persist_touches s (AUpdateMany pt os ns) pt) as P. destruct (persist s (AUpdateMany pt os ns)) as [[s1 ok] old]. cbn [fst] in P.
+  destruct ok; cbn [negb]; [|exact P]. destruct (update_many (get_store s1 pt) os ns) as [st' updated].
+  destruct updated; cbn [negb fst]; [|touch_step; exact P]. destruct (a_is_g d).
+  - destruct (links_update d (with_store s1 pt st') pt false os) as [s3 lok1] eqn:E1.
+    assert (T3 : touches_only s s3 pt).
+    { replace s3 with (fst (links_update d (with_store s1 pt st') pt false os)) by (rewrite E1; reflexivity). repeat touch_step. exact P. }
+    destruct lok1; cbn [negb fst]; [|exact T3].
+    destruct (links_update d s3 pt true ns) as [s4 lok2] eqn:E2. cbn [fst].
+    replace s4 with (fst (links_update d s3 pt true ns)) by (rewrite E2; reflexivity). touch_step. exact T3.
+  - cbn [fst]. touch_step. exact P.
+Qed.
+
+Lemma remove_filtered_wo_touches d s pt fi fvs : touches_only s (fst (remove_filtered_wo d s pt fi fvs)) pt.
+Proof.
+  unfold remove_filtered_wo. destruct fvs as [|fv t]; [touch_step|].
+  pose proof (persist_touches s (ARemoveFiltered pt fi (fv :: t)) pt) as P.
+  destruct (persist s (ARemoveFiltered pt fi (fv :: t))) as [[s1 ok] old]. cbn [fst] in P.
+  destruct ok; cbn [negb]; [|exact P].
+  destruct (remove_filtered (get_store s1 pt) fi (fv :: t)) as [[[st' removed] eff]|]; [|exact P].
+  destruct removed; cbn [negb fst]; [|touch_step; exact P]. destruct (a_is_g d).
+  - destruct (links_update d _ pt false eff) as [s3 lok] eqn:E. cbn [fst].
+    replace s3 with (fst (links_update d (with_store s1 pt st') pt false eff)) by (rewrite E; reflexivity).
+    repeat touch_step. exact P.
+  - cbn [fst]. touch_step. exact P.
+Qed.
+
+(* the policy type / role definition a management call addresses *)
+Fixpoint op_pt (op : mop) : option string :=
+  match op with
+  | MAdd pt _ | MAddMany pt _ | MAddManyEx pt _ | MRemove pt _ | MRemoveMany pt _ | MUpdate pt _ _
+  | MUpdateMany pt _ _ | MRemoveFiltered pt _ _ => Some pt
+  | MSelf op' => op_pt op'
+  | _ => None
+  end.
+
+Theorem definitions_isolated cfg op : forall s nt pt, op_pt op = Some pt ->
+  touches_only s (fst (step_wo cfg s op nt)) pt.
+Proof.
+  induction op; intros s nt pt0 H; cbn [op_pt] in H; try discriminate; try (inversion H; subst pt0);
+    cbn [step_wo]; try (destruct (def_of cfg pt) as [d|]; [|apply same_mem_touches, same_mem_refl]);
+    try (destruct nt; cbn [fst snd]; [eapply touches_trans; [|apply same_mem_touches, notify_mem]|]).
+  all: try apply add_wo_touches; try apply add_many_wo_touches; try apply remove_wo_touches;
+       try apply remove_many_wo_touches; try apply update_wo_touches; try apply update_many_wo_touches;
+       try apply remove_filtered_wo_touches.
+  apply IHop. exact H.
 Qed.
